@@ -116,14 +116,14 @@ def plan(ctx):
     gen('mixed-L3-sim', L=3, ShapeRows=232, ShapeCols=323, sim=(250 * k, 63), invs=GI)
     gen('tall-L3-sim', L=3, ShapeRows=322, ShapeCols=221, sim=(90 * k, 3), invs=GI)
     # ---- knot-vector pairs, block-size tuples, symmetric patterns / banded / dense
-    gen('kv', Mode='kv', invs=['EmitKV', 'KVSameMeshOK', 'KVSymmetricOK'], workers=3)
+    gen('kv', Mode='kv', Alpha='all' if T else 'reduced', invs=['EmitKV', 'KVSameMeshOK', 'KVSymmetricOK'], workers=3)
     gen('reidx', Mode='reidx', invs=['EmitReidx', 'ReidxOK'])
     gen('pat', Mode='pat', invs=['EmitPat', 'PatOK'])
     # ---- negative controls: the code as it stands today violates the invariants of the design check
     negative('neg-odometer', ['CursorOK', 'DoneOK'], L=3, ShapeRows=222, ShapeCols=222, Alpha='reduced', RunLoop=True,
              Buggy=True)
     negative('neg-matvec-ylen', ['MatvecOK'], L=2, ShapeRows=32, ShapeCols=22, Alpha='reduced', BuggyY=True)
-    negative('neg-sparsity-mesh-index', ['KVAnyMeshOK'], Mode='kv')
+    negative('neg-sparsity-mesh-index', ['KVAnyMeshOK'], Mode='kv', Alpha='reduced')
     return runs
 
 
